@@ -82,6 +82,13 @@ def opXAipwG (a : Args) : Except String String := do
   let Q := fun (r : Row F) (arm : Bool) => if arm then look q1 r else look q0 r
   pure s!"ok y1={sh (aipw1 l Q (look g1) (look g0))} y0={sh (aipw0 l Q (look g1) (look g0))} est={sh (aipwEst l Q (look g1) (look g0))} var={sh (aipwVar l Q (look g1) (look g0))}"
 
+/-- StochasticIPTW marginal outcome: per-row plan probability `p=` and fitted propensity `pi=` -/
+def opXStochG (a : Args) : Except String String := do
+  let l : List (Row F) ← parseRowsX a
+  let p : Array F ← vals a "p"
+  let pi : Array F ← vals a "pi"
+  pure s!"ok m={sh (stochMean l (look p) (look pi))}"
+
 /-- closed-form g-estimation: `a= y= w= p=` rows, modifier columns `v0= v1= …` (`D=` of them), candidate `psi=`;
     optional `flip=1`, `yc= yd=` apply the model's `flipA` / `affY` first -/
 def opSnmG (a : Args) : Except String String := do
@@ -142,6 +149,7 @@ def opsC08 : OpTable := [
   ("xiptw", atCarrier (opXIptwG (F := Rat)) (opXIptwG (F := Float))),
   ("xgform", atCarrier (opXGformG (F := Rat)) (opXGformG (F := Float))),
   ("xaipw", atCarrier (opXAipwG (F := Rat)) (opXAipwG (F := Float))),
+  ("xstoch", atCarrier (opXStochG (F := Rat)) (opXStochG (F := Float))),
   ("snm", atCarrier (opSnmG (F := Rat)) (opSnmG (F := Float))),
   ("score", atCarrier (opScoreG (F := Rat)) (opScoreG (F := Float)))]
 
